@@ -4,6 +4,9 @@ package datasemaphore
 
 // Machine-checked contracts for /verif (read as text by the VC generator; no code).
 //
+//@ // lock discipline (C28): the held amount and the capacity are only touched with the semaphore's mutex held
+//@ guarded DataSemaphore.processing by mu
+//@ guarded DataSemaphore.maxProcessing by mu
 //@ ghost warnings int
 //@
 //@ funcfield DataSemaphore.warning
@@ -14,6 +17,7 @@ package datasemaphore
 //@
 //@ func (*DataSemaphore).tryAcquire
 //@   requires s != nil
+//@   requires [locked] wlocked(s.mu)
 //@   modifies s.processing
 //@   ensures  [grant] result == old(fits(s, metric))
 //@   ensures  [held] result ==> s.processing.Num == old(s.processing.Num) + metric.Num && s.processing.Size == old(s.processing.Size) + metric.Size
